@@ -343,6 +343,13 @@ def run(ctx):
                 else:
                     ctx.check(got is not None and abs(float(got) - want) <= 2e-6 + 1e-9 * abs(want), 'duration', cid,
                               got=got, want=want, time_channel=exp['tkind'], **desc)
+        if exp['N'] > 0 and cid[1] % 3 == 0:
+            # the same sample after a selection that leaves no event (a gate that keeps nothing): still "without raising"
+            e_ = s[:0] if cid[1] % 2 else s[np.zeros(s.shape[0], dtype=bool)]
+            ae = core.attempt(lambda: e_.acquisition_time)
+            if exp['tkind'] != 'two':
+                ctx.check(not ae.raised, 'duration-raises', cid, exc=core.exc_str(ae.exc) if ae.raised else None,
+                          where='after a selection that leaves no event', time_channel=exp['tkind'], **desc)
         check_against_text(ctx, cid, s, dict(s.text), 'generated (reference derivation from the keywords)')
         vend = exp['creator'] != 'none'
         ctx.case_done(class_key=clskey, nontrivial=ill or vend, distinct_key=core.digest(raw),
